@@ -94,7 +94,7 @@ func genInjected(r *rng, thorough bool, mode string, emit func(FlowScenario)) {
 			pFail: 25, pPhaseFail: 0, funcStyle: true, runs: 1, wideBatch: mode == "fail"}
 		sc := randFlow(r, p)
 		if mode == "cancel" {
-			sc.Kind = r.pick([]string{"canceled", "deadline", "deadline", "cause", "fardeadline"})
+			sc.Kind = r.pick([]string{"canceled", "deadline", "deadline", "cause", "fardeadline", "child"})
 			if false {
 				sc.Kind = "deadline"
 			}
@@ -129,7 +129,7 @@ func genLeafInjected(r *rng, mode string, emit func(FlowScenario)) {
 				t.next, t.errN = r.intn(30), r.intn(20)
 				sc := singleRun(cfg, t.leafScript(0, 0, true, m, eff+1, true, "=a"))
 				if mode == "cancel" {
-					sc.Kind = []string{"canceled", "deadline", "cause", "fardeadline"}[(fs+N)%4]
+					sc.Kind = []string{"canceled", "deadline", "cause", "fardeadline", "child"}[(fs+N)%5]
 				}
 				withInjections(sc, mode, emit)
 				if mode == "cancel" {
@@ -154,7 +154,7 @@ func genBatchFlow(r *rng, thorough bool, emit func(FlowScenario)) {
 		p := flowParams{leaves: r.intn(2), batches: 2 + r.intn(3), depth: 1 + r.intn(2),
 			actions: []string{"a", "b"}, maxVisits: 3, pFail: 25, pPhaseFail: 0, funcStyle: false, runs: 1, wideBatch: false}
 		sc := randFlow(r, p)
-		sc.Kind = r.pick([]string{"canceled", "deadline", "cause", "fardeadline"})
+		sc.Kind = r.pick([]string{"canceled", "deadline", "cause", "fardeadline", "child"})
 		withInjections(sc, "cancel", emit)
 	}
 }
